@@ -19,6 +19,8 @@ import (
 	"encoding/json"
 	"errors"
 	"flag"
+	"fmt"
+	"net"
 	"os"
 	"sync"
 	"time"
@@ -41,6 +43,13 @@ type caseIn struct {
 	// a huge number: only when the script is used up or a failed pass was seen)
 	// buffered: cancel when this many requests have been received from out
 	CancelAfter int `json:"cancel_after"`
+	// buffered and real runs: the consumer takes this long per request (a pass may then last longer
+	// than the rescan interval)
+	ConsumeUS int `json:"consume_us,omitempty"`
+	// real runs: the delegate is the REAL scan.NewIPRequestGenerator(scan.NewIPGenerator()) over this
+	// subnet; Passes complete passes are collected before the cancellation
+	Real   string `json:"real,omitempty"`
+	Passes int    `json:"passes,omitempty"`
 }
 
 type caseOut struct {
@@ -58,6 +67,9 @@ type caseOut struct {
 	Closes    []int64         `json:"closes"`
 	Stuck     bool            `json:"stuck"`
 	Unknown   bool            `json:"unknown_request,omitempty"`
+	// real runs
+	OutIPs    []string `json:"out_ips,omitempty"`
+	Deadlines []bool   `json:"deadlines,omitempty"` // whether the context handed to delegate call k had a deadline
 }
 
 type callInfo struct {
@@ -267,6 +279,9 @@ func runSeq(in caseIn) caseOut {
 			select {
 			case ci.ch <- rq:
 			case <-ctx.Done():
+				// like every generator of pkg/scan: once its context is done it hands out nothing
+				// more and closes its channel
+				close(ci.ch)
 				return
 			}
 		}
@@ -315,6 +330,9 @@ loop:
 				id = 65535
 			}
 			out.Outs = append(out.Outs, id)
+			if in.ConsumeUS > 0 && !cancelled {
+				time.Sleep(time.Duration(in.ConsumeUS) * time.Microsecond)
+			}
 		case ci := <-d.calls:
 			out.Calls++
 			out.Starts = append(out.Starts, ci.t)
@@ -359,6 +377,81 @@ loop:
 		out.Closes = append(out.Closes, t)
 	}
 	cmu.Unlock()
+	return out
+}
+
+// ------------------------------------------------------------------------------ real delegate, slow consumer
+
+// realDelegate is the real generator chain of `sx arp` (scan.NewIPRequestGenerator over
+// scan.NewIPGenerator); it only notes when it is called and whether the context it is handed has a
+// deadline, and passes that context on unchanged.
+type realDelegate struct {
+	mu        sync.Mutex
+	t0        time.Time
+	inner     scan.RequestGenerator
+	starts    []int64
+	deadlines []bool
+}
+
+func (d *realDelegate) GenerateRequests(ctx context.Context, r *scan.Range) (<-chan *scan.Request, error) {
+	d.mu.Lock()
+	d.starts = append(d.starts, time.Since(d.t0).Nanoseconds())
+	_, has := ctx.Deadline()
+	d.deadlines = append(d.deadlines, has)
+	d.mu.Unlock()
+	return d.inner.GenerateRequests(ctx, r)
+}
+
+func runReal(in caseIn) caseOut {
+	out := caseOut{Kind: "real", caseIn: in, Outs: []int{}, Trace: [][]interface{}{}, Effective: []passIn{}, OutIPs: []string{}}
+	_, subnet, err := net.ParseCIDR(in.Real)
+	if err != nil {
+		panic(err)
+	}
+	ones, bits := subnet.Mask.Size()
+	size := 1 << uint(bits-ones)
+	ctx, cancel := context.WithCancel(context.Background())
+	defer cancel()
+	d := &realDelegate{t0: time.Now(), inner: scan.NewIPRequestGenerator(scan.NewIPGenerator())}
+	rescan := time.Duration(in.RescanUS) * time.Microsecond
+	outc, err := scan.NewLiveRequestGenerator(d, rescan).GenerateRequests(ctx,
+		&scan.Range{DstSubnet: subnet, SrcIP: net.IPv4(10, 254, 254, 1).To4(), SrcMAC: net.HardwareAddr{2, 0, 0, 0, 0, 1}})
+	if err != nil {
+		out.StartErr = true
+		return out
+	}
+	watchdog := time.After(20 * time.Second)
+	cancelled := false
+loop:
+	for {
+		if !cancelled && len(out.OutIPs) >= in.Passes*size {
+			cancelled = true
+			out.Before = len(out.OutIPs)
+			cancel()
+		}
+		select {
+		case v, ok := <-outc:
+			if !ok {
+				out.Closed = true
+				break loop
+			}
+			ip := "<nil>"
+			if v.DstIP != nil {
+				ip = v.DstIP.String()
+			}
+			out.OutIPs = append(out.OutIPs, ip)
+			if in.ConsumeUS > 0 && !cancelled {
+				time.Sleep(time.Duration(in.ConsumeUS) * time.Microsecond)
+			}
+		case <-watchdog:
+			out.Stuck = true
+			cancel()
+			break loop
+		}
+	}
+	d.mu.Lock()
+	out.Calls, out.Starts, out.Deadlines = len(d.starts), append([]int64{}, d.starts...), append([]bool{}, d.deadlines...)
+	d.mu.Unlock()
 	return out
 }
 
@@ -422,22 +515,24 @@ func totalReqs(s []passIn) int {
 	return n
 }
 
-func cases(seed int64, nTrace, nSeq, everyIndex int) []caseIn {
+func cases(seed int64, nTrace, nSeq, everyIndex, nSlow int) []caseIn {
 	r := hlib.NewRand(seed)
 	next := 1
 	var cs []caseIn
 	const never = 1 << 30
-	if nTrace == 0 && nSeq == 0 && everyIndex == 0 {
+	if nTrace == 0 && nSeq == 0 && everyIndex == 0 && nSlow == 0 {
 		return nil
 	}
 	// fixed small scripts
-	cs = append(cs,
+	if nTrace > 0 || everyIndex > 0 {
+		cs = append(cs,
 		caseIn{Class: "trace-two-passes", Script: []passIn{{Reqs: []int{1, 2, 3}}, {Reqs: []int{4, 5}}}, RescanUS: 15000, CancelAfter: never},
 		caseIn{Class: "trace-fail-second", Script: []passIn{{Reqs: []int{1, 2}}, {Fail: true, Reqs: []int{}}, {Reqs: []int{9}}}, RescanUS: 15000, CancelAfter: never},
 		caseIn{Class: "trace-fail-first", Script: []passIn{{Fail: true, Reqs: []int{}}, {Reqs: []int{1}}}, RescanUS: 15000, CancelAfter: never},
 		caseIn{Class: "trace-precancel", Script: []passIn{{Reqs: []int{1, 2, 3}}, {Reqs: []int{4}}}, RescanUS: 15000, CancelAfter: -1},
-		caseIn{Class: "trace-empty-passes", Script: []passIn{{Reqs: []int{}}, {Reqs: []int{}}, {Reqs: []int{7}}}, RescanUS: 8000, CancelAfter: never},
-	)
+			caseIn{Class: "trace-empty-passes", Script: []passIn{{Reqs: []int{}}, {Reqs: []int{}}, {Reqs: []int{7}}}, RescanUS: 8000, CancelAfter: never},
+		)
+	}
 	// cancellation at every index of a few short scripts
 	for i := 0; i < everyIndex; i++ {
 		next = 1
@@ -485,6 +580,30 @@ func cases(seed int64, nTrace, nSeq, everyIndex int) []caseIn {
 		}
 		cs = append(cs, c)
 	}
+	// passes that last longer than the rescan interval: a slow consumer (a rate limit, a big subnet).
+	// Every pass must still be complete.
+	for i := 0; i < nSlow; i++ {
+		next = 1
+		npass := 3 + r.Intn(2)
+		s := make([]passIn, npass)
+		for k := range s {
+			sz := 10 + r.Intn(15)
+			s[k] = passIn{Reqs: make([]int, sz)}
+			for j := range s[k].Reqs {
+				s[k].Reqs[j] = next
+				next++
+			}
+		}
+		rescan := 6000 + r.Intn(5000)
+		cs = append(cs, caseIn{Class: "seq-slow-consumer", Script: s, Cap: []int{1, 7, 2}[i%3], RescanUS: rescan,
+			CancelAfter: never, ConsumeUS: rescan * 5 / 2 / 12})
+		subnet := fmt.Sprintf("10.%d.%d.%d/%d", 1+r.Intn(200), r.Intn(256), 16*r.Intn(16), 28-i%2)
+		if i%2 == 1 {
+			subnet = fmt.Sprintf("10.%d.%d.%d/27", 1+r.Intn(200), r.Intn(256), 32*r.Intn(8))
+		}
+		cs = append(cs, caseIn{Class: "real-generators-slow-consumer", Real: subnet, RescanUS: 15000 + r.Intn(10000),
+			ConsumeUS: 2500 + r.Intn(1500), Passes: 3, CancelAfter: never})
+	}
 	return cs
 }
 
@@ -522,6 +641,7 @@ func main() {
 	nTrace := flag.Int("ntrace", 120, "random rendezvous runs")
 	nSeq := flag.Int("nseq", 60, "random buffered runs")
 	every := flag.Int("every", 4, "short scripts run with a cancellation at every event index")
+	nSlow := flag.Int("nslow", 4, "runs with a consumer so slow that a pass lasts longer than the interval (scripted and real delegates)")
 	par := flag.Int("par", 48, "runs in parallel")
 	corpus := flag.String("corpus", "", "directory of JSON case inputs that are run first")
 	replay := flag.String("replay", "", "JSON file holding one case input")
@@ -529,6 +649,7 @@ func main() {
 	capMS := flag.Int("capms", 2000, "internal: capture duration")
 	e2e := flag.Int("e2e", 0, "end-to-end runs of `sx arp --live` in a private network namespace")
 	sxPath := flag.String("sx", "", "path of the sx binary for -e2e")
+	e2eBig := flag.Bool("e2ebig", false, "-e2e runs only the rate-limited /23 configurations (passes longer than the interval)")
 	flag.Parse()
 	if *capIf != "" {
 		capture(*capIf, *capMS, *outPath)
@@ -548,7 +669,7 @@ func main() {
 		}
 		cs = []caseIn{in}
 	} else {
-		cs = append(readCorpus(*corpus), cases(*seed, *nTrace, *nSeq, *every)...)
+		cs = append(readCorpus(*corpus), cases(*seed, *nTrace, *nSeq, *every, *nSlow)...)
 	}
 	outs := make([]caseOut, len(cs))
 	var wg sync.WaitGroup
@@ -558,7 +679,9 @@ func main() {
 		sem <- struct{}{}
 		go func(i int) {
 			defer wg.Done()
-			if cs[i].Cap == 0 {
+			if cs[i].Real != "" {
+				outs[i] = runReal(cs[i])
+			} else if cs[i].Cap == 0 {
 				outs[i] = runTrace(cs[i])
 			} else {
 				outs[i] = runSeq(cs[i])
@@ -573,14 +696,22 @@ func main() {
 		configs := []struct {
 			interval, run int
 			exclude       []string
-		}{{300, 1100, nil}, {250, 950, []string{"5", "6"}}, {400, 1350, []string{"2"}}, {200, 900, []string{"0", "7"}}}
+			rate          int // probes per second (0: no --rate)
+			prefix        int
+		}{{300, 1100, nil, 0, 29}, {250, 950, []string{"5", "6"}, 0, 29}, {400, 1350, []string{"2"}, 0, 29},
+			{200, 900, []string{"0", "7"}, 0, 29},
+			// a /20 at 5000 probes/s: a pass lasts ~0.8 s, longer than the interval, and does not fit the pipeline buffers
+			{200, 3000, nil, 5000, 20}, {150, 3000, []string{"9", "77"}, 4000, 20}}
+		if *e2eBig {
+			configs = configs[4:]
+		}
 		e2eOuts = make([]e2eOut, *e2e)
 		for i := 0; i < *e2e; i++ {
 			wg.Add(1)
 			go func(i int) {
 				defer wg.Done()
 				c := configs[i%len(configs)]
-				e2eOuts[i] = runE2E(*sxPath, self, wd, i, c.interval+10*(i/len(configs)), c.run, c.exclude)
+				e2eOuts[i] = runE2E(*sxPath, self, wd, i, c.interval+10*(i/len(configs)), c.run, c.exclude, c.rate, c.prefix)
 			}(i)
 		}
 	}
